@@ -52,23 +52,47 @@ def statusOf (t : ReqTables) : DErr → ReqOut
   | .other => .err t.statusOther
   | .panic => .panic
 
+/-- what the command byte alone decides: `(kind, request variant)` with kind
+    0 = InvalidCommand, 1 = parameter-less request, 2 = CBOR parameters follow, 3 = vendor,
+    4 = impossible (an `Operation` without a switch arm cannot compile) -/
+def reqKind (t : ReqTables) (b : Nat) : Nat × String :=
+  match opOfByte t.opTryFrom t.vendorArms t.vendorTryFrom b with
+  | none => (0, "")
+  | some o =>
+    match switchOf t.opSwitch o with
+    | none => (4, "")
+    | some kv => kv
+
+/-- the part of `Request::deserialize` after the command byte has been classified -/
+def requestBody (t : ReqTables) (op : Byte) (rest : Input) (kind : Nat) (variant : String) : ReqOut :=
+  if kind = 0 then .err t.statusInvalidCommand
+  else if kind = 1 then .ok variant none
+  else if kind = 3 then .ok variant (some (.nat op.toNat))
+  else if kind = 2 then
+    match t.reqTy variant with
+    | none => .panic
+    | some ty =>
+      match decode ty rest with
+      | .ok (v, _) => .ok variant (some v)
+      | .error e => statusOf t e
+  else .panic
+
 def requestDeserialize (t : ReqTables) (data : Input) : ReqOut :=
   match data with
-  | [] => if t.emptyGuard then .err t.statusOther else .err t.statusOther
-  | op :: rest =>
-    match opOfByte t.opTryFrom t.vendorArms t.vendorTryFrom op.toNat with
-    | none => .err t.statusInvalidCommand
-    | some o =>
-      match switchOf t.opSwitch o with
-      | none => .panic                          -- non-exhaustive match cannot compile; unreachable
-      | some (kind, variant) =>
-        if kind = 0 then .err t.statusInvalidCommand
-        else if kind = 1 then .ok variant none
-        else if kind = 3 then .ok variant (some (.nat op.toNat))
-        else
-          match t.reqTy variant with
-          | none => .panic
-          | some ty =>
-            match decode ty rest with
-            | .ok (v, _) => .ok variant (some v)
-            | .error e => statusOf t e
+  | [] => .err t.statusOther             -- `data.is_empty()` guard / `split_first()` failure: same error
+  | op :: rest => requestBody t op rest (reqKind t op.toNat).1 (reqKind t op.toNat).2
+
+/-- `impl From<Operation> for u8` over the generated arm table: variant index ↦ byte; the
+    vendor arm returns the byte wrapped in `VendorOperation` -/
+def opToByte (into : List (Nat × Option Nat)) (i : Nat) (wrapped : Nat) : Option Nat :=
+  match into.lookup i with
+  | some (some b) => some b
+  | some none => some wrapped
+  | none => none
+
+/-- lifting a complete finite check to a universally quantified statement -/
+theorem forall_lt_of_all (n : Nat) (p : Nat → Bool) (h : (List.range n).all p = true) :
+    ∀ b, b < n → p b = true := by
+  intro b hb
+  rw [List.all_eq_true] at h
+  exact h b (List.mem_range.mpr hb)
